@@ -188,7 +188,9 @@ def main():
         "not_applicable": na,
         "notes": "Technique family: deterministic simulation with fault injection. VERIF_SEED selects the master seed; "
                  "exit 0 held / 1 VIOLATION / 2 HARNESS-ERROR. Genuine defects repaired by fix: commits are listed in "
-                 "/verif/known_findings.txt; DESIGN.md section 6 describes them.",
+                 "/verif/known_findings.txt; DESIGN.md section 6 describes them. Determinism self-test of the simulator "
+                 "(not a property check): /venv/bin/python /verif/check.py selftest --tier quick. Sensitivity: "
+                 "/verif/seeded/ (independent breaking changes) and /verif/tools/mutants.py.",
     }
     with open(os.path.join(VERIF, "MANIFEST.json"), "w") as f:
         json.dump(manifest, f, indent=1)
